@@ -10,9 +10,10 @@ SPEC = {
     "rule": ("the real conncode.Service (ActivateConnectionCode / RevokeConnectionCode / CreateConnectionCode) over the real "
              "repositories, PortMappingService, ID manager and memory storage; every call runs as its own node (own service stack) on a "
              "gated wrapper over one shared storage. sched cases: all interleavings of the storage phases (claim/get/quota/create/"
-             "update/rollback/release) of 2 activations (word length 11) and of 2 activations + 1 revocation (length 8), same client "
+             "update/rollback/release) of 2 activations (word length 11) and of 2 activations + 1 revocation (length 8), the same for "
+             "requests that spell the code differently (upper case, trailing/leading blank, another string; 7 pairs, 4 triples), same client "
              "twice, two revocations, every single write-failure position of an activation and of a revocation (alone, followed by and "
-             "interleaved with a second activation), all 120 orders of create/expire/activate/activate/revoke for both key modes "
+             "interleaved with a second activation; claim/look-up/release failure with two other activations in flight), all 120 orders of create/expire/activate/activate/revoke for both key modes "
              "(real-time expiry), random structured cases (malformed requests, quotas, faults, late/missing/double creation, expiry "
              "at random points); each compared token by token with the model and judged by the theorem's predicate. fine cases: every "
              "single storage operation is a scheduling point, order drawn from the seed, judged by the predicate only. non-trivial = more "
@@ -30,6 +31,8 @@ SPEC = {
     "assumptions": [
         "the claim key does not expire while its holder is inside ActivateConnectionCode/RevokeConnectionCode (codeClaimTTL = 30 s "
         "versus a call of a few storage round trips); a holder stalled longer than that is outside the model",
+        "the code string of a request is compared as a raw string (no canonicalisation anywhere: skel_keys); a request that spells "
+        "the code differently is a request for another key (model: Thread.spell, own claim key, no record)",
         "one generation of the code string: a second CreateConnectionCode that draws the same string after the first record vanished "
         "is a different code (the model ignores a second create event)",
         "at most one storage failure per call (any number of calls may each have one); failures absorbed by the code (ID-generator "
